@@ -375,7 +375,8 @@ def check_hard(acc, rng):
             pot = HardSpherePotential(radius=R)
             u = [rng.gauss(0, 1) for _ in range(dim)]
             n = math.sqrt(sum(c * c for c in u))
-            dist = sig * rng.choice([1.0, 1.0 + 1e-15, 1.0 + 1e-9, 1.5, 3.0, 10.0, rng.uniform(1, 6)])
+            dist = sig * rng.choice([1.0, 1.0 + 1e-15, 1.0 + 1e-9, 1.5, 3.0, 10.0, rng.uniform(1, 6),
+                                     1.0 - 1e-15, 1.0 - 2e-14, 1.0])     # incl. contacts rounded from below
             s = [c / n * dist for c in u]
             rmin, rmax = sig, None
         else:
@@ -423,6 +424,13 @@ def check_hard(acc, rng):
                 acc.count("ill_conditioned_totality_only")
                 if t != t or t < -1e-9:
                     acc.violation(f"C02:hard-{kind}-not-a-time", f"v={v}, s={s} -> {t!r}", wit)
+                elif kind == "sphere" and touching and vs > 0.1 * math.sqrt(vv * ss):
+                    # in contact (possibly rounded from below, within the potential's own tolerance) and clearly
+                    # approaching: the first time of contact is now
+                    acc.count("touching_and_approaching_checked")
+                    if not abs(t) <= 1e-6 * tscale:
+                        acc.violation("C02:hard-core-contact-time", f"hard sphere in contact and approaching: v={v}, s={s} "
+                                                                    f"(|s|/2R - 1 = {dist / sig - 1:.2e}) -> {t!r}, expected 0", wit)
                 continue
             acc.violation("C02:hard-core-contact-time", f"hard {kind}: v={v}, s={s} -> {t!r}, independent solve gives {want!r}", wit)
             continue
